@@ -422,7 +422,21 @@ class ReprMethod(MethodDescriptor):
             if attr not in exclude_attrs
         }
 
+        rendering = set()  # ids of the containers currently being rendered
+
         def object_repr(obj, indent=False):
+            if indent and isinstance(obj, (MutableSequence, MutableMapping, MutableSet)):
+                if id(obj) in rendering:
+                    # A container that contains itself (as in the builtin `repr`).
+                    return "[...]" if isinstance(obj, MutableSequence) else "{...}"
+                rendering.add(id(obj))
+                try:
+                    return _object_repr(obj, indent=indent)
+                finally:
+                    rendering.discard(id(obj))
+            return _object_repr(obj, indent=indent)
+
+        def _object_repr(obj, indent=False):
             if obj is self:
                 return "<self>"
             if inspect.ismethod(obj):
